@@ -271,21 +271,6 @@ fn gen_weights(r: &mut Rng, n: usize, zeros: bool) -> (&'static str, Vec<i64>) {
     }
 }
 
-/// The stream of strictly positive weights far below f64::EPSILON makes the
-/// balance clause fail (docs/C11.md, finding 1).  It is generated once the
-/// class `mj-tiny-weights` is an open entry of known_findings.json (or when
-/// VERIF_C11_TINY=1), so that the finding is reported, not a violation.
-fn tiny_enabled() -> bool {
-    if std::env::var("VERIF_C11_TINY").map_or(false, |v| v == "1") {
-        return true;
-    }
-    let root = std::env::current_exe().ok().and_then(|p| p.ancestors().nth(4).map(|r| r.to_path_buf()));
-    match root.and_then(|r| std::fs::read_to_string(r.join("known_findings.json")).ok()) {
-        Some(t) => t.contains("\"mj-tiny-weights\"") && t.contains("\"open\""),
-        None => false,
-    }
-}
-
 struct Case {
     family: String,
     wfamily: String,
@@ -303,9 +288,9 @@ struct Case {
 fn gen_case(r: &mut Rng, tier: &str) -> Case {
     let big = tier == "thorough";
     let d = if r.chance(1, 2) { 2 } else { 3 };
-    let tiny = tiny_enabled();
     let stream = match r.below(100) {
-        0..=3 if tiny => "tiny",
+        // strictly positive weights far below f64::EPSILON (z * 2^-70): broke the balance bound before 70b7d46
+        0..=4 => "tiny",
         0..=77 => "main",
         78..=87 => "zeros",
         88..=94 => "more_parts",
@@ -538,17 +523,8 @@ fn main() {
             .iter()
             .map(|p| format!("[{}]", p.iter().map(|x| format!("{:?}", x)).collect::<Vec<_>>().join(",")))
             .collect();
-        // known-finding class, from the input alone: total weight below 2^-40 (the absolute
-        // epsilon 2^-52 of approx::Ulps::default() is then comparable to the weights themselves)
-        let total: f64 = c.ws.iter().map(|w| *w as f64 * 2f64.powi(c.wexp)).sum();
-        let kf = if c.k >= 1 && c.max_iter >= 1 && !c.ws.is_empty() && c.ws.iter().all(|w| *w > 0) && total < 2f64.powi(-40) {
-            "\"kf\":\"mj-tiny-weights\","
-        } else {
-            ""
-        };
         let json = format!(
-            "{{{}\"weight_family\":\"{}\",\"dim\":{},\"points\":[{}],\"weights\":{},\"weight_exponent\":{},\"part_count\":{},\"max_iter\":{},\"pool\":{},\"scheme_leaves\":{},\"sort_replays\":{},\"impl\":{},\"impl_one_thread\":{}}}",
-            kf,
+            "{{\"weight_family\":\"{}\",\"dim\":{},\"points\":[{}],\"weights\":{},\"weight_exponent\":{},\"part_count\":{},\"max_iter\":{},\"pool\":{},\"scheme_leaves\":{},\"sort_replays\":{},\"impl\":{},\"impl_one_thread\":{}}}",
             c.wfamily,
             c.d,
             pts_json.join(","),
